@@ -323,3 +323,16 @@ Example C15_ex_hlj :
   map e_stage (fst (fst (run 2 [stream]))) = [1; 3; 4; 5; 6; 7] /\
   map (fun r => (fst r, p_cur (snd r), p_body (snd r))) (s_record (snd (run 2 [stream]))) = [([65], 3, [7; 8; 9])].
 Proof. vm_compute. repeat split; reflexivity. Qed.
+
+(* C15_1212_written on the example: the bytes written for the first 0x1212 (item 3) are the 0x9212 frame with serial 2
+   (third answer) carrying "retransmit (0, 2)" *)
+Example C15_ex_1212_written :
+  match irun 1 init_st ex_items, decode (ex_1212 65 5 3) with
+  | Some sts, Ok m =>
+    match parse1211 (m_body m), decode ex_1210 with
+    | Ok t, Ok hd => wr (nth 3 sts init_st) = encode hd ID_9212 2 (reply1212 t [(0, 2)])
+    | _, _ => False
+    end
+  | _, _ => False
+  end.
+Proof. vm_compute. reflexivity. Qed.
